@@ -97,6 +97,7 @@ where
                 let vmax = vdomain.max();
                 let umin = udomain.min();
                 Ok(state
+                    .with_constraint(self.clone())
                     .process_domain(
                         &uwalk,
                         Rc::new(udomain.copy_before(|u| vmax < *u).ok_or(())?),
@@ -104,8 +105,7 @@ where
                     .process_domain(
                         &vwalk,
                         Rc::new(vdomain.drop_before(|v| umin <= *v).ok_or(())?),
-                    )?
-                    .with_constraint(self))
+                    )?)
             }
             (Some(udomain), None) if vwalk.is_number() => {
                 // The variable `u` has an assigned domain, and variable `v` has been bound
